@@ -100,6 +100,11 @@ struct SignalRepeater {
 };
 #endif
 
+#ifdef AMPL_MP_VERIF
+/// Verification hook, see src/solver.cc (null by default).
+extern void (*verif_signal_point)(int);
+#endif
+
 // A SIGINT/SIGTERM handler
 class SignalHandler : public Interrupter {
  private:
